@@ -200,7 +200,8 @@ def dispatch(item):
     return check_program(item)
 
 
-VARIANTS = [["-findirect-start-ptr"], ["-findirect-start-ptr", "-fstrict-done-token-generation"], [], ["-findirect-start-ptr", "-feof-support"], ["-findirect-start-ptr", "-O3"]]
+VARIANTS = [["-findirect-start-ptr"], ["-findirect-start-ptr", "-fstrict-done-token-generation"], [], ["-findirect-start-ptr", "-feof-support"], ["-findirect-start-ptr", "-O3"],
+            ["-findirect-start-ptr", "-feof-support", "-fstrict-done-token-generation"]]
 
 
 def run(tier, seed):
